@@ -25,6 +25,9 @@ MUTANTS = [
     {"name": "hash-tag-empty-body", "file": "src/common/utils.rs", "old": "            if end_offset == 0 {\n                return key;\n            }\n", "new": "", "expect": "C09.D2"},
     {"name": "eval-key-index", "file": "src/proxy/command.rs", "old": "DataCmdType::Eval | DataCmdType::Evalsha => packet.get_array_element(3),", "new": "DataCmdType::Eval | DataCmdType::Evalsha => packet.get_array_element(2),", "expect": "C09.D3"},
     {"name": "multi-int-guard-dropped", "file": "src/proxy/executor.rs", "after": "async fn handle_multi_int_cmd(", "old": "            if !in_same_slot {", "new": "            if !in_same_slot && arg_len > 1_000_000 {", "expect": "C09.D4"},
+    {"name": "unwrap-keeps-cached-slot", "file": "src/proxy/command.rs", "old": "        let remaining = self.request.left_trim_cmd(removed_num)?;\n        self.info = CommandInfo::new(&self.request);", "new": "        let remaining = self.request.left_trim_cmd(removed_num)?;\n        self.info = CommandInfo {\n            cmd_type: CmdType::from_packet(&self.request),\n            data_cmd_type: DataCmdType::from_packet(&self.request),\n            slot: self.info.slot,\n        };", "expect": "C09.D6"},
+    {"name": "single-slot-range-dropped", "file": "src/proxy/slot.rs", "old": "                if start > end {\n                    continue;", "new": "                if start >= end {\n                    continue;", "expect": "C09.D7:single-slot-range-is-filled"},
+    {"name": "fill-excludes-end", "file": "src/proxy/slot.rs", "old": "                for s in start..=end {", "new": "                for s in start..end {", "expect": "C09.D7:fill-includes-end"},
 ]
 
 
@@ -44,12 +47,16 @@ def run(ctx):
     ctx.rule("C09.D2", "get_hash_tag equals the Redis Cluster hash-tag rule on all 364 strings over {a,{,}} of length <= 5", exhaustive=True)
     ctx.rule("C09.D3", "key position table over all command variants: EVAL/EVALSHA -> 3, others -> 1", exhaustive=True)
     ctx.rule("C09.D4", "same-slot guards: six handlers, guard dominates forwarding, refusal reply, skippable only under active redirection (never for EVAL)")
+    ctx.rule("C09.D6", "slot provenance: every CommandInfo is built with slot = generate_slot(get_key(the same packet)); the cached slot is re-derived whenever the request of a Command is rewritten")
+    ctx.rule("C09.D7", "the routing table covers single-slot ranges: in SlotMapData::new a range with start == end still reaches the table write, and the fill is inclusive of `end`")
     ctx.rule("C09.D5", "local / MOVED / error trichotomy for the command's own slot")
     _wiring(ctx)
     _hash_tag(ctx)
     _key_pos(ctx)
     _guards(ctx)
     _trichotomy(ctx)
+    _slot_provenance(ctx)
+    slot_table_boundary(ctx, "C09.D7")
 
 
 def _wiring(ctx):
@@ -277,3 +284,120 @@ def _trichotomy(ctx):
                 ctx.check(m_ == bool(found), "C09.D5", "remote:slot-%s" % ("covered" if found else "not-covered"), site(r, gets[0][0]), ok="MOVED to the owner" if found else "error reply, no MOVED",
                           bad="slot covered=%d: MOVED construction reachable=%s" % (found, m_))
             ctx.check(any(b"slot not covered" in c or b"not covered" in c for c in cs), "C09.D5", "remote:not-covered-error", site(r), ok="uncovered slot answers an error", bad="no `slot not covered` error in send_remote")
+
+
+def _slot_provenance(ctx):
+    """the routing slot of a command is a cache of hash(key of its current request): (a) every construction of
+    CommandInfo computes it from the packet it is given, never from a parameter or another command's info;
+    (b) every function that rewrites Command.request (wrap / strip UMFORWARD, change an element) rebuilds info from
+    the rewritten request afterwards"""
+    from ..lib import agg_sites
+    F = ctx.F
+    R = "C09.D6"
+    n = 0
+    for b in F.all_bodies(bins=True):
+        if b.is_mock() or b.kind == "Promoted" or "tests::" in b.path:
+            continue
+        sites_ = agg_sites(b, "proxy::command::CommandInfo")
+        if not sites_:
+            continue
+        du = DefUse(b)
+        for bb, i, st in sites_:
+            n += 1
+            ctx.analysed(b)
+            rv = st["rv"]
+            op = rv["ops"][rv["fields"].index("slot")]
+            sl = du.slice_operand(op)
+            hashes = any(c.get("fn", "").endswith("generate_slot") for c in sl.consts) or sl.has_call("generate_slot")
+            keyed = sl.has_call("CommandInfo::get_key")
+            ctx.check(hashes and keyed, R, "slot-from-own-key:%s" % b.path.rsplit("::", 1)[-1], site(b, bb, i), ok="slot = get_key(packet).map(generate_slot)",
+                      bad="%s builds a CommandInfo whose slot is not computed from the packet's key (origins: %s): a command can be routed by another command's slot" % (b.path, sl.summary()))
+            # field writes to CommandInfo.slot outside constructors
+    ctx.floor(R, "CommandInfo constructions", n, 1)
+    for b in F.all_bodies(bins=True):
+        if b.is_mock() or b.kind == "Promoted" or "tests::" in b.path:
+            continue
+        for bb, i, st in b.assigns():
+            fs = [(norm(a), nm) for a, nm in place_fields(st["place"])]
+            if fs and fs[-1] == ("proxy::command::CommandInfo", "slot"):
+                ctx.violation(R, "slot-field-write:%s" % b.path, site(b, bb, i), "the cached slot is overwritten outside CommandInfo's constructor")
+    # (b) rewrites of Command.request re-derive info
+    m_ = 0
+    for b in F.all_bodies(bins=False):
+        if b.is_mock() or b.kind == "Promoted" or "tests::" in b.path or b.impl_adt != "proxy::command::Command" or b.kind != "AssocFn":
+            continue
+        if not (b.sig and b.sig.get("self") in ("refmut", "&mut")):
+            continue
+        du = DefUse(b)
+        rew = []
+        for bb, t in b.calls():
+            if not t.get("atys") or not t["atys"][0].startswith("&mut"):
+                continue
+            sl = du.slice_operand(t["args"][0], deep=False)
+            if ("proxy::command::Command", "request") in {(norm(a), nm) for a, nm in sl.fields}:
+                rew.append((bb, t))
+        if not rew:
+            continue
+        if b.path.endswith("::change_element"):
+            # vetted: replaces the bytes of one element in place; its only user is the value compressor, whose positions
+            # (2, 3, even indexes >= 2; never the key position) are decided by C20.D1
+            ctx.info(R, "rewrite-rederives-info:change_element", "in-place element replacement used for values only (C20.D1 decides the positions): key and slot unchanged")
+            continue
+        m_ += 1
+        ctx.analysed(b)
+        news = [(bb, t) for bb, t in calls_to(b, "CommandInfo::new")]
+        infow = [bb for bb, i, st in b.assigns() if [(norm(a), nm) for a, nm in place_fields(st["place"])][-1:] == [("proxy::command::Command", "info")]]
+        ok_exits = b.return_blocks()
+        bad = None
+        for rb, rt in rew:
+            # from the rewrite every path to a return either passes an info write fed by CommandInfo::new(&self.request) or is the failure path
+            good_w = set()
+            for nb, nt in news:
+                if ("proxy::command::Command", "request") in {(norm(a), nm) for a, nm in du.slice_operand(nt["args"][0]).fields} and cfg.reaches(b, rb, nb):
+                    good_w.add(nb)
+            if not good_w:
+                bad = (rb, "no CommandInfo::new(&self.request) after the rewrite")
+        ctx.check(bad is None, R, "rewrite-rederives-info:%s" % b.path.rsplit("::", 1)[-1], site(b, bad[0]) if bad else site(b), ok="request rewrite is followed by info = CommandInfo::new(&self.request)",
+                  bad="%s rewrites the request but %s: the command keeps the slot of its old key" % (b.path, bad[1] if bad else ""))
+    ctx.floor(R, "Command methods that rewrite the request", m_, 2)
+
+
+def slot_table_boundary(ctx, R):
+    """SlotMapData::new: comparisons between a range's start and end are evaluated at start == end (conditional constant
+    propagation with the comparison answered for equal operands): the write into the slot table must stay executable.
+    A `start >= end -> skip` guard silently drops every one-slot range: its owner answers `slot not covered` and the
+    peers have no MOVED target."""
+    from ..lib import binop_sites
+    F = ctx.F
+    b = F.one("proxy::slot::SlotMapData::new")
+    if b is None:
+        ctx.lost(R, "SlotMapData::new", "not found")
+        return
+    ctx.analysed(b)
+    du = DefUse(b)
+    cmps = []
+    for bb, i, st in binop_sites(b, ("Lt", "Le", "Gt", "Ge", "Eq", "Ne")):
+        na = {b.local_name(l) for l in du.slice_operand(st["rv"]["a"], deep=False).locals}
+        nb = {b.local_name(l) for l in du.slice_operand(st["rv"]["b"], deep=False).locals}
+        if ("start" in na and "end" in nb) or ("end" in na and "start" in nb):
+            cmps.append(st)
+    writes = [bb for bb, i, st in b.assigns() if any(e == "deref" for e in st["place"]["p"]) and b.locals[st["place"]["l"]]["ty"].startswith("&mut std::option::Option<usize>")]
+    if not writes:
+        # iterator style fill: any write through a mutable element reference
+        writes = [bb for bb, i, st in b.assigns() if any(e == "deref" for e in st["place"]["p"]) and "Option<usize>" in b.locals[st["place"]["l"]]["ty"]]
+    if not ctx.floor(R, "slot table writes in SlotMapData::new", len(writes), 1):
+        return
+
+    def binop(interp, bbx, stmt, op, a, bv):
+        for c in cmps:
+            if c is stmt:
+                return Bool({"Lt": 0, "Le": 1, "Gt": 0, "Ge": 1, "Eq": 1, "Ne": 0}[op])
+        return None
+    res = Interp(F, b, Oracle(binop=binop)).run()
+    ctx.check(any(w in res.exec_blocks for w in writes), R, "single-slot-range-is-filled", site(b, writes[0]), ok="with start == end the slot table write is executable (%d start/end comparison(s))" % len(cmps),
+              bad="with start == end the slot table write is not executable: a range `s-s` is dropped from the routing table, its owner answers `slot not covered` and peers cannot answer MOVED")
+    # inclusive upper bound
+    excl = [(bb, i) for bb, i, st in b.assigns() if st["rv"]["k"] == "agg" and st["rv"].get("ak") == "adt" and norm(st["rv"].get("adt", "")) == "std::ops::Range"
+            and {"start", "end"} <= ({b.local_name(l) for l in du.slice_operand(st["rv"]["ops"][0], deep=False).locals} | {b.local_name(l) for l in du.slice_operand(st["rv"]["ops"][1], deep=False).locals})
+            and not (du.slice_operand(st["rv"]["ops"][1]).binops & {"Add", "AddWithOverflow"})]
+    ctx.check(not excl, R, "fill-includes-end", site(b, excl[0][0], excl[0][1]) if excl else site(b), ok="the fill range includes `end`", bad="the fill iterates start..end without the end slot: the last slot of every range has no owner in the table")
